@@ -33,6 +33,14 @@ def gen(ctx):
                         continue
                     cases.append(Case(size, data=data, driver=driver, workers=w, bs=bs, reflink=mode, plan=plan,
                                       prior=rng.choice(["absent", "longer"]), label=lab))
+    # the mode as a user may TYPE it: the option's value is case-insensitive (Always, NEVER, Auto are the modes always, never, auto)
+    for driver in ("parfile", "parblock"):
+        for spelling in ("Always", "ALWAYS", "Never", "NEVER", "Auto", "aUtO"):
+            for (lab, plan) in (("real", []), ("emulated-success", [("ret", 0, 0, "ioctl", 1, "{dst}")])):
+                c = Case(3 * B + 9, driver=driver, workers=rng.choice([1, 2]), bs=B, reflink=spelling.lower(), plan=plan,
+                         prior="absent", label=lab + ", mode typed as " + spelling)
+                c.reflink_spelling = spelling
+                cases.append(c)
     return cases
 
 
@@ -84,7 +92,7 @@ def run(ctx, out):
                 "(EOPNOTSUPP on ext4), by each 'unsupported' errno (EOPNOTSUPP EINVAL EXDEV ETXTBSY), by a hard errno "
                 "(EIO EPERM ENOSPC), or emulated as successful (return 0, ioctl skipped) by the supervisor; plus trees of 12 files "
                 "where the answer differs from file to file (refused for the first 1 or 3, successful after; real; successful "
-                "for all): the contract is judged per file; plus trees copied ACROSS file systems (tmpfs <-> work directory), the kernel's own answer; plus -v / -vv runs whose standard output is a pipe or /dev/full; distinct = distinct case tuple")
+                "for all): the contract is judged per file; plus trees copied ACROSS file systems (tmpfs <-> work directory), the kernel's own answer; plus -v / -vv runs whose standard output is a pipe or /dev/full; modes typed in upper / mixed case; distinct = distinct case tuple")
     out.assumptions.append("C15: a real successful clone is never exercised here (ext4 has no reflink); success is emulated")
     datapath.run_cases(ctx, out, gen(ctx), "C15", oracle, nontrivial)
     run_trees(ctx, out)
